@@ -58,6 +58,9 @@ def _judge_one(case):
         raise Violation(exc_bucket(e), f"ColorPair({t!r}, {b!r}) raised {e!r}")
     if not pair.is_valid:
         raise Violation("rejects-valid-translucent", f"ColorPair({t!r}, {b!r}) is invalid: {pair.errors}")
+    for nm, col in (("text", pair.text.rgb), ("background", pair.bg.rgb)):
+        if not (isinstance(col, tuple) and len(col) == 3 and all(type(v) is int and 0 <= v <= 255 for v in col)):
+            raise Violation("composite-not-three-8bit-ints", f"ColorPair({t!r}, {b!r}).{nm}.rgb = {col!r} is not a tuple of three ints in 0..255")
     # background: opaque -> as read by O-CSS; translucent -> exact blend over white within 1.5
     white = (255, 255, 255)
     lib_parsed_bg = isinstance(b, (tuple, list)) and any(not isinstance(v, int) or isinstance(v, bool) for v in b)
